@@ -12,6 +12,9 @@ import MidnightZK.Proofs.C10.Field
 import MidnightZK.Proofs.C10.Prime
 import MidnightZK.Proofs.C10.Codec
 import MidnightZK.Proofs.C10.Tower
+import MidnightZK.Proofs.C10.MontC
+import MidnightZK.Proofs.C10.BY
+import MidnightZK.Proofs.C10.Jacobi
 /-!
 # C10 — every exported field type is the field it names
 -/
@@ -335,6 +338,175 @@ theorem pinned_k256_from_unnormalized_defect :
     (KBody.normBin "*").run ⟨9, false⟩ ⟨1, true⟩ = none ∧
     (KBody.normBin "+").run ⟨2, false⟩ ⟨1, true⟩ = some ⟨1, true⟩ := by decide +kernel
 
+
+/-! ## The carry-aware Montgomery code of `curve25519::Fp` -/
+
+/-- The parameters read from `curve25519/fp.rs` satisfy the side conditions of the carry-aware
+limb theorems (`u64` limbs, `INV·m0 ≡ -1 (mod 2^64)`, `M` odd, `M > 1` — no bound `2·M ≤ 2^256`
+is needed), and the `R2`/`R3` limbs are `R² mod M`, `R³ mod M`. -/
+theorem c25519_params_ok :
+    MontOKC c25519Params ∧
+    ((L4.ofList Gen.C25519Fp.R2).getD L4.zero).wf ∧
+    ((L4.ofList Gen.C25519Fp.R2).getD L4.zero).val = RR * RR % c25519Params.m.val ∧
+    ((L4.ofList Gen.C25519Fp.R3).getD L4.zero).wf ∧
+    ((L4.ofList Gen.C25519Fp.R3).getD L4.zero).val = RR * RR * RR % c25519Params.m.val :=
+  ⟨⟨by decide +kernel, by decide +kernel, by decide +kernel, by decide +kernel⟩,
+   by decide +kernel, by decide +kernel, by decide +kernel, by decide +kernel⟩
+
+/-- `curve25519/fp.rs: fn montgomery_reduce` (the carry out of the fourth round enters the trial
+subtraction): for every eight `u64` limbs denoting `T < M·2^256` the result has `u64` limbs, is
+`< M` and satisfies `x·2^256 ≡ T (mod M)` — for EVERY odd modulus below `2^256`. -/
+theorem montgomery_reduce_c_spec (p : MontParams) (ok : MontOKC p) (r0 r1 r2 r3 r4 r5 r6 r7 : Nat)
+    (h0 : r0 < W) (h1 : r1 < W) (h2 : r2 < W) (h3 : r3 < W) (h4 : r4 < W) (h5 : r5 < W)
+    (h6 : r6 < W) (h7 : r7 < W) (hT : val8 r0 r1 r2 r3 r4 r5 r6 r7 < p.m.val * W ^ 4) :
+    (montReduceC p r0 r1 r2 r3 r4 r5 r6 r7).wf ∧ (montReduceC p r0 r1 r2 r3 r4 r5 r6 r7).val < p.m.val ∧
+    (montReduceC p r0 r1 r2 r3 r4 r5 r6 r7).val * W ^ 4 % p.m.val =
+      val8 r0 r1 r2 r3 r4 r5 r6 r7 % p.m.val :=
+  montReduceC_core p r0 r1 r2 r3 r4 r5 r6 r7 ok.wf h0 h1 h2 h3 h4 h5 h6 h7 ok.inv hT
+
+/-- Non-vacuity: the Curve25519 parameters, `T = (M - 1)·(2^256 - 1)` (the carry word is live:
+`M > 2^254`), reduced to a value below `M`. -/
+example : (montReduceC c25519Params 1 0 0 0 0 0 0 0).val * W ^ 4 % c25519Params.m.val = 1 := by
+  decide +kernel
+
+/-- `curve25519/fp.rs: fn mul` and `fn add` on Montgomery representatives are multiplication and
+addition modulo `M`; `from_raw`/`from_bytes` (`val·R2`) and `from_uniform_bytes` (`d0·R2 + d1·R3`)
+yield the representatives of `val` and of `d0 + d1·2^256` — the statements `mul_spec`, `add_spec`,
+`from_raw_spec`, `from_u512_spec` transferred to the carry-aware variant. -/
+theorem mul_c_spec (p : MontParams) (ok : MontOKC p) (a b : L4) (x y : Nat)
+    (ha : IsMont p.m.val a x) (hb : IsMont p.m.val b y) :
+    IsMont p.m.val (mulC p a b) (x * y) ∧ IsMont p.m.val (addC p.m a b) (x + y) :=
+  ⟨mulC_mont p ok a b x y ha hb, addC_mont p ok a b x y ha hb⟩
+
+theorem from_uniform_bytes_c_spec (p : MontParams) (ok : MontOKC p) (r2 r3 d0 d1 : L4) (h0 : d0.wf)
+    (h1 : d1.wf) (hr2w : r2.wf) (hr3w : r3.wf) (hr2 : r2.val = RR * RR % p.m.val)
+    (hr3 : r3.val = RR * RR * RR % p.m.val) :
+    IsMont p.m.val (mulC p d0 r2) d0.val ∧
+    IsMont p.m.val (fromU512C p r2 r3 d0 d1) (d0.val + d1.val * RR) :=
+  ⟨fromRawC_mont p ok r2 d0 h0 hr2w hr2, fromU512C_mont p ok r2 r3 d0 d1 h0 h1 hr2w hr3w hr2 hr3⟩
+
+/-- Non-vacuity: all-ones ‖ all-ones (the 64-byte pattern `ff…ff`) through the Curve25519 code. -/
+example :
+    (fromU512C c25519Params ((L4.ofList Gen.C25519Fp.R2).getD L4.zero) ((L4.ofList Gen.C25519Fp.R3).getD L4.zero)
+      ⟨W - 1, W - 1, W - 1, W - 1⟩ ⟨W - 1, W - 1, W - 1, W - 1⟩).val =
+      (2 ^ 512 - 1) % c25519FpP * RR % c25519FpP := by decide +kernel
+
+/-! ## Bernstein–Yang inversion (`ff_ext/inverse.rs`) -/
+
+/-- THE MATRIX INVARIANT OF ONE BATCH OF 62 DIVISION STEPS (`inverse.rs: fn jump`): for every pair
+of low chunks `f`, `g` and every `delta`, the matrix `t` returned annihilates `(f, g)` modulo `2^62`
+row by row (so the one-chunk shifts of `fg` are exact divisions) and `det t = 2^62`. (The model
+returns `none` only if its fuel of 200 passes runs out; for odd `f` every pass after the first
+consumes a division step — not proved, never observed: the driver would answer `fuel`.) -/
+theorem by_jump_matrix_invariant (flo glo : Nat) (delta delta' : Int) (t : BY.Mat)
+    (h : BY.jump flo glo delta = some (delta', t)) :
+    (2 : Int) ^ 62 ∣ t.a * flo + t.b * glo ∧ (2 : Int) ^ 62 ∣ t.c * flo + t.d * glo ∧
+    t.a * t.d - t.b * t.c = 2 ^ 62 :=
+  BY.jump_matrix flo glo delta delta' t h
+
+/-- Non-vacuity: the first batch of inverting 3 modulo `2^255 - 19` (low chunk of the modulus,
+`g = 3`, `delta = 1`). -/
+example : (BY.jump (c25519FpP % 2 ^ 62) 3 1).isSome = true := by decide +kernel
+
+/-- `inverse.rs: fn fg` and `fn de`, for EVERY matrix: `fg` divides `t·(f, g)ᵀ` exactly once the
+matrix annihilates `(f, g)` modulo `2^62`; the multiple of the modulus that `de` adds (computed
+from the low chunks, the signs and `inverse = M⁻¹ mod 2^62`) makes `t·(d, e)ᵀ + (md, me)ᵀ·M`
+divisible by `2^62`, so `de` returns `t·(d, e)ᵀ / 2^62` modulo `M`. -/
+theorem by_fg_de_exact (m inverse : Int) (hinv : (2 : Int) ^ 62 ∣ inverse * m - 1) (t : BY.Mat)
+    (f g d e : Int) (h0 : (2 : Int) ^ 62 ∣ t.a * f + t.b * g) (h1 : (2 : Int) ^ 62 ∣ t.c * f + t.d * g) :
+    ((BY.fgV t f g).1 * 2 ^ 62 = t.a * f + t.b * g ∧ (BY.fgV t f g).2 * 2 ^ 62 = t.c * f + t.d * g) ∧
+    ∃ md me : Int, (BY.deV m inverse t d e).1 * 2 ^ 62 = t.a * d + t.b * e + md * m ∧
+      (BY.deV m inverse t d e).2 * 2 ^ 62 = t.c * d + t.d * e + me * m :=
+  ⟨BY.fgV_exact t f g h0 h1, BY.deV_exact m inverse hinv t d e⟩
+
+/-- THE LOOP INVARIANT (one batch): if `d·x ≡ f·A` and `e·x ≡ g·A (mod M)` with `M` odd, then after
+`jump`/`fg`/`de` the same congruences hold for the new `(f, g, d, e)` — the same matrix acts on
+`(f, g)` exactly and on `(d, e)` modulo `M`. -/
+theorem by_batch_invariant (m inverse : Int) (hodd : m % 2 = 1) (hinv : (2 : Int) ^ 62 ∣ inverse * m - 1)
+    (x A delta f g d e : Int) (delta' : Int) (t : BY.Mat) (f' g' d' e' : Int)
+    (h : BY.batchV m inverse delta f g d e = some (delta', t, f', g', d', e'))
+    (hd : m ∣ d * x - f * A) (he : m ∣ e * x - g * A) :
+    m ∣ d' * x - f' * A ∧ m ∣ e' * x - g' * A := by
+  unfold BY.batchV at h
+  cases hj : BY.jump (f % 2 ^ 62).toNat (g % 2 ^ 62).toNat delta with
+  | none => rw [hj] at h; simp at h
+  | some r =>
+    obtain ⟨dl, t1⟩ := r
+    rw [hj] at h
+    simp only at h
+    injection h with h
+    injection h with _ h
+    injection h with ht h
+    injection h with hf h
+    injection h with hg h
+    injection h with hd' he'
+    subst ht hf hg hd' he'
+    obtain ⟨j0, j1, _⟩ := BY.jump_matrix _ _ _ _ _ hj
+    exact BY.batch_invariant m inverse hodd hinv x A t1 f g d e (BY.lift_low _ _ f g j0)
+      (BY.lift_low _ _ f g j1) hd he
+
+/-- `invert_spec_partial` — `BYInverter::invert` at the value level: for every odd modulus `M`
+(with `inverse·M ≡ 1 (mod 2^62)`), adjuster `A` and argument `x`, whenever the main loop ends with
+`g = 0` and `f = ±1` (i.e. the model returns a value within its fuel), the result satisfies
+`result·x ≡ A (mod M)`; and `norm` maps the range `(-2M, M)` that `de` documents for `d` into
+`[0, M)`. PARTIAL: (i) termination with `f = ±1` for invertible `x` (the iteration bound of
+Bernstein–Yang) is not proved — it is the hypothesis "returns `some`"; (ii) that `d` stays in
+`(-2M, M)` is not proved (the harness checks it on every logged state of the real code);
+(iii) the chunk-level functions (`CInt<62, L>` carry chains) are tied to this value level by the
+correspondence (every real loop state equals both models), not by a theorem. -/
+theorem invert_spec_partial (m a x : Nat) (hodd : (m : Int) % 2 = 1)
+    (hinv : (2 : Int) ^ 62 ∣ BY.byInv (m % BY.U64) * m - 1) (fuel : Nat) (r : Int)
+    (tr : List (Int × BY.Mat × Int × Int × Int × Int))
+    (h : BY.invertV m a x fuel = some (some r, tr)) :
+    (m : Int) ∣ r * x - a ∧
+    ∀ d : Int, ∀ neg : Bool, -2 * (m : Int) < d → d < m → 0 ≤ BY.normV m d neg ∧ BY.normV m d neg < m :=
+  ⟨BY.invertV_spec m a x hodd hinv fuel r tr h, fun d neg hlo hhi => BY.normV_range m d neg hlo hhi⟩
+
+/-- The instance used by `curve25519::Fp::invert` (`BYInverter::<6>::new(&MODULUS_LIMBS, &R2.0)`):
+the modulus is odd and the value computed by `inv` (Hurchalla) from its low limb is its inverse
+modulo `2^62` — on the limbs parsed from the source. -/
+theorem by_inverse_constant_c25519 :
+    (c25519FpP : Int) % 2 = 1 ∧
+    (2 : Int) ^ 62 ∣ BY.byInv (c25519FpP % BY.U64) * (c25519FpP : Int) - 1 := by
+  refine ⟨by decide +kernel, Int.dvd_of_emod_eq_zero ?_⟩
+  decide +kernel
+
+/-- Non-vacuity of `invert_spec_partial`: the model inverts `3` modulo `2^255 - 19` with the
+adjuster `1` in nine batches, and `3·r ≡ 1`. -/
+example : ((BY.invertV c25519FpP 1 3).map (fun r => (r.1.map (fun v => (v * 3) % (c25519FpP : Int)), r.2.length))) =
+    some (some 1, 9) := by decide +kernel
+
+/-! ## Jacobi symbol (`ff_ext/jacobi.rs`): the sign bookkeeping -/
+
+/-- The sign of the running symbol is bit 1 of the accumulator `t` (`signOut`); each update of
+`jacobi`/`jacobinary` flips that bit exactly under the condition of the corresponding rule:
+`t ^= b ^ (b >> 1)` iff `b ≡ 3, 5 (mod 8)` (second supplement, one halving);
+`t ^= (b ^ (b >> 1)) & (z << 1)` iff additionally `z` is odd (a batch of `z` halvings);
+`t ^= a & b` iff `a ≡ b ≡ 3 (mod 4)` (reciprocity at a swap);
+`t ^= d.0[0]` iff `d ≡ 3 (mod 4)` (first supplement, when `n` is negated). -/
+theorem jacobi_sign_rules (a b d z t : Nat) (ha : a % 2 = 1) (hb : b % 2 = 1) (hd : d % 2 = 1) :
+    ((Jac.twoWord b).testBit 1 = true ↔ (b % 8 = 3 ∨ b % 8 = 5)) ∧
+    ((Jac.twoWord b &&& (z * 2)).testBit 1 = ((Jac.twoWord b).testBit 1 && decide (z % 2 = 1))) ∧
+    ((a &&& b).testBit 1 = true ↔ (a % 4 = 3 ∧ b % 4 = 3)) ∧
+    (d.testBit 1 = true ↔ d % 4 = 3) ∧
+    Jac.signOut d t = (if d = 1 then (if t.testBit 1 then -1 else 1) else 0) :=
+  ⟨Jac.sign_two b hb, Jac.sign_batch b z, Jac.sign_reciprocity a b ha hb, Jac.sign_neg d hd,
+   Jac.signOut_eq d t⟩
+
+/-- Non-vacuity / the executable model on small instances: `(2/7) = 1`, `(3/7) = -1`, `(0/7) = 0`,
+and a non-residue modulo `2^255 - 19` (`2`, the published generator). -/
+example : (Jac.jacobi 2 [2, 0] [7, 0]).map (·.1) = some 1 ∧ (Jac.jacobi 2 [3, 0] [7, 0]).map (·.1) = some (-1) ∧
+    (Jac.jacobi 2 [0, 0] [7, 0]).map (·.1) = some 0 ∧
+    (Jac.jacobi 5 [2, 0, 0, 0, 0] (Gen.C25519Fp.MODULUS ++ [0])).map (·.1) = some (-1) := by decide +kernel
+
+/-- What `approximate` keeps (mirrored from the code, see `Model/C10/Jacobi.lean`): with more than
+32 common leading zeros in the top chunk pair the bits of the next chunk never reach the result —
+here the top chunk is `1` (`z = 63`) and the chunk below is all-ones, yet the high half of the
+approximation is `2^63` only (the doc comment of `approximate` promises the 32 high bits of the
+129-bit value, `0xffffffff`). Harmless for `jacobi` (the approximations only steer which exact
+linear combination is taken), recorded because the code differs from its documentation. -/
+example : Jac.approximate [5, 2 ^ 64 - 1, 1] [3, 0, 1] = (2 ^ 63 + 5, 2 ^ 63 + 3, false) := by decide +kernel
+
 /-! ## Square root of the Curve25519 base field -/
 
 /-- `curve25519/fp.rs: fn sqrt` (`p ≡ 5 (mod 8)`, Algorithm 3 of eprint 2012/685), over any
@@ -374,6 +546,66 @@ theorem c25519_sqrt_spec_partial {R : Type} [Lean.Grind.CommRing R] [DecidableEq
 `a0 = 16 = 1`): the function returns `3`, and `3² = 4`. -/
 example : c25519SqrtGen (· * ·) (fun y => y * y) (· + ·) (· - ·) (- ·) (1 : Fin 5) 1 4 1 = some 3 := by
   decide
+
+/-- The branches of `curve25519/fp.rs: fn sqrt` are complete and consistent with `a0 = (a1²·a)²`:
+the function returns `None` EXACTLY when `a0 = -1`; it returns a root when `a0 = 1`
+(`c25519_sqrt_spec_partial`); and for `a = 0` (where `a0 = 0`) it returns `Some(0)`. What remains
+a hypothesis is only that `a0 ∈ {0, 1, -1}` with `a0 = 1` iff `a` is a non-zero square (Euler's
+criterion, which needs the primality of `2^255 - 19`). -/
+theorem c25519_sqrt_branches {R : Type} [Lean.Grind.CommRing R] [DecidableEq R] (t a a1 : R) :
+    (c25519SqrtGen (· * ·) (fun y => y * y) (· + ·) (· - ·) (- ·) 1 t a a1 = none ↔
+      (a1 * a1 * a) * (a1 * a1 * a) = -1) ∧
+    (a = 0 → (0 : R) ≠ -1 →
+      c25519SqrtGen (· * ·) (fun y => y * y) (· + ·) (· - ·) (- ·) 1 t a a1 = some 0) := by
+  constructor
+  · unfold c25519SqrtGen
+    simp only
+    constructor
+    · intro h
+      split at h
+      · assumption
+      · exact absurd h (by simp)
+    · intro h
+      rw [if_pos h]
+  · intro ha h01
+    subst ha
+    unfold c25519SqrtGen
+    simp only
+    have e0 : (a1 * a1 * (0 : R)) * (a1 * a1 * 0) = 0 := by grind
+    rw [e0, if_neg h01]
+    congr 1
+    grind
+
+/-- `jubjub/fr.rs: fn sqrt` (`r ≡ 3 (mod 4)`: `s = self^((r+1)/4)`, `Some(s)` iff `s·s == self`), on
+the limb model: a value is returned only if it squares to the input, and `None` exactly when the
+candidate does not; at ring level, with `e = self^((r-1)/2)` (so that `s² = self·e`, the exponent
+`(r+1)/4` being kernel-checked in `jubjub_fr_constants`): `e = 1` makes the candidate a root and
+`e = -1` makes it a root of `-self`. PARTIAL: `e ∈ {1, -1}` for `self ≠ 0` is Euler's criterion
+(primality of the Jubjub group order is not proved here). -/
+theorem jubjub_sqrt_spec_partial (p : MontParams) (one a : L4) :
+    (∀ s, jubjubSqrt p one a = some s → mulL p s s = a) ∧
+    (jubjubSqrt p one a = none ↔
+      mulL p (powGen (squareL p) (mulL p) one a Gen.JubjubFr.SQRT_EXP)
+        (powGen (squareL p) (mulL p) one a Gen.JubjubFr.SQRT_EXP) ≠ a) ∧
+    (∀ {R : Type} [Lean.Grind.CommRing R] (x e s : R), s * s = x * e →
+      (e = 1 → s * s = x) ∧ (e = -1 → s * s = -x)) := by
+  refine ⟨fun s h => ?_, ?_, fun x e s h => ⟨fun he => by rw [h, he]; grind, fun he => by rw [h, he]; grind⟩⟩
+  · unfold jubjubSqrt at h
+    simp only at h
+    split at h
+    · rename_i hc
+      injection h with h
+      rw [← h]; exact hc
+    · exact absurd h (by simp)
+  · unfold jubjubSqrt
+    simp only
+    constructor
+    · intro h
+      split at h
+      · exact absurd h (by simp)
+      · assumption
+    · intro h
+      rw [if_neg h]
 
 /-- The constant fact used above, on the literal of `curve25519/fp.rs: T_SQRT`:
 `4·T_SQRT⁴ ≡ -1 (mod p)`. -/
